@@ -20,7 +20,7 @@ RULE = ('alphabet: local {final headers, headers+END_STREAM, informational, trai
         'end_stream, reset, push, window increment, alt-svc} and received {HEADERS, HEADERS+END_STREAM, informational, '
         'trailers, DATA, DATA+END_STREAM, RST_STREAM, WINDOW_UPDATE, PUSH_PROMISE, naked CONTINUATION, PRIORITY, '
         'ALTSVC} on one target stream; contexts {client-opened, server-side inbound, reserved (local), reserved '
-        '(remote), upgraded stream 1 on each side, a never-promised even id on each side} x {closed streams cleaned up after every step or not}; all '
+        '(remote), upgraded stream 1 on each side, a never-promised even id on each side, alone or below odd ids already in use} x {closed streams cleaned up after every step or not}; all '
         'sequences to the depth bound plus generated sequences of up to 30 steps over three streams; non-trivial = '
         'the sequence reaches a state other than idle/open or has a rejected step followed by further steps; '
         'distinct by (context, sequence)')
@@ -35,7 +35,7 @@ RECV = ['R:final', 'R:final+es', 'R:info', 'R:trailers', 'R:data', 'R:data+es', 
         'R:cont', 'R:prio', 'R:altsvc']
 ALPHABET = LOCAL + RECV
 CONTEXTS = ['client-idle', 'server-idle', 'reserved-local', 'reserved-remote', 'upgraded-client', 'upgraded-server',
-            'client-idle-even', 'server-idle-even']
+            'client-idle-even', 'server-idle-even', 'client-busy-even', 'server-busy-even']
 INFO = [(b':status', b'103')]
 TRAILERS = [(b'x-trailer', b'v')]
 AVOID = set()
@@ -58,7 +58,7 @@ class World:
     def __init__(self, context, cleanup):
         self.context = context
         self.cleanup = cleanup
-        client = context in ('client-idle', 'reserved-remote', 'upgraded-client', 'client-idle-even')
+        client = context in ('client-idle', 'reserved-remote', 'upgraded-client', 'client-idle-even', 'client-busy-even')
         self.client = client
         self.s = Solo(client)
         self.m = M.Conn(client)
@@ -79,6 +79,15 @@ class World:
             self.t = 2 if context.endswith('-even') else 1
             if context.endswith('-even'):
                 self.next_promise = 4
+            if context.endswith('busy-even'):
+                # the never-promised even id lies below ids the client has used already
+                for sid in (1, 3):
+                    if client:
+                        s.call('send_headers', sid, REQ)
+                        m.apply_send_headers(sid, 'request', False)
+                    else:
+                        s.feed(wire.headers(sid, s.hblock(REQ)))
+                        m.apply_recv_headers(sid, 'request', False)
             if context == 'reserved-local':
                 s.feed(wire.headers(1, s.hblock(REQ)))
                 m.apply_recv_headers(1, 'request', False)
